@@ -84,6 +84,12 @@ func init() {
 			historyPool = append(historyPool, fmt.Sprintf(f, b))
 		}
 	}
+	// literal / variable calls on plain objects and on objects that handle them themselves; chains over things that
+	// cannot be iterated (inside try and not): caches and error objects behind these paths must not carry over
+	historyPool = append(historyPool, "{a: 1}.{|o| o}", "[{a: 1}, {b: 2}]@{|o| o.keys}", "g9 := {|o| o}; {a: 1}.^g9", "1.{|n| n + 1}", "[1, 2]@{|n| n + 1}", "\"s\".{|x| x.uc}",
+		"BaseObj.bear({a: 1})@{|x| x}", "1.try.{|t| {_iter: nil}@{|x| x}}.err.msg", "{_iter: 5}$(0){|a, x| a}", "h9 := {|| BaseObj.bear({})@{|y| y}}\nh9()", "nil.try.{|t| BaseObj.bear({})$(0){|a, y| a}}.err?")
+	probePool = append(probePool, "Box := {v: 6, _literalProxy: m{|f| \"boxed(#{f(.v)})\"}}\nBox.{|x| x + 1}", "Box := {v: 2, _literalProxy: m{|f| [f(.v)]}}\nb2 := {|x| x * 5}\nBox.^b2", "Box := {_literalProxy: m{|f| 'proxied}}\n[Box, Box]@{|x| x}",
+		"{_iter: nil}@{|x| x}", "q := {|| BaseObj.bear({})@{|y| y}}\nq()", "BaseObj.bear({z: 1})$(0){|a, y| a}", "1.try.{|t| {_iter: nil}@{|x| x}}.err.msg")
 	probePool = append(probePool, "3.zzz9", "Int['zzz9]", "\"a\".zzz9", "{}.zzz9", "[].zzz9", "nil.zzz8", "{|x: 0| \\_}(**{zzz9: 1})")
 }
 
